@@ -45,7 +45,10 @@ RULE = (
     "for raw), every option subset of every tag of the built-in + Shopify tag set, liquid-tag "
     "line statements, the three comment kinds; (c) seeded random depth-bounded compositions of "
     "all of the above with generated partials, rendered against 5 data sets (2 fixed, empty, 2 "
-    "random). distinct = hash(environment kind, subject text, partials); non-trivial = the "
+    "random), in liquid2.Environment / liquid2.shopify.Environment with default_trim +, - or ~. "
+    "Each shard first runs a fixed calibration list of tiny templates (not counted) so that "
+    "mechanism keys come from unambiguous witnesses. "
+    "distinct = hash(environment kind, subject text, partials); non-trivial = the "
     "parsed template contains >= 3 distinct node classes and >= 1 filter or an expression that "
     "is not a bare path/literal."
 )
@@ -59,7 +62,15 @@ ASSUMPTIONS = [
     "mechanism key, never to decide one",
     "templates are rendered synchronously with DictLoader partials; environments are the stock "
     "liquid2.Environment and liquid2.shopify.Environment with default_trim = + (default), - or ~",
-    "memory addresses in rendered text (' at 0x…') are masked before comparison",
+    "memory addresses in rendered text (' at 0x…') are masked before comparison; a behaviour "
+    "difference must reproduce on a second fresh run, otherwise it is counted as "
+    "'nondeterministic_renders_skipped' (the render is not a function of its inputs: C09's subject)",
+    "when one template trips several defects the violation is attributed to one of them (a "
+    "divergence already shown causal by a minimised witness in the same shard, else the first "
+    "divergence of the minimised witness); hit counts per key are therefore approximate and a "
+    "pervasive defect can hide a rarer one inside the same template (tiny unit templates limit that)",
+    "cycle items never contain interpolated template strings in generated partials: the real cycle "
+    "group key hashes such an item by object identity, which makes renders address-dependent",
 ]
 
 MAX_MINIMISE_PER_SHARD = 60
